@@ -167,6 +167,13 @@ Theorem C19_missing_prompt_refuted :
 Proof. exact missing_prompt_refuted. Qed.
 Print Assumptions C19_missing_prompt_refuted.
 
+(* the two inputs of the model are produced without pairing of renamed paths: `git diff -U0` and
+   `git show --numstat` both run with --no-renames (literal options read from the source by the
+   translator, Gen/GenStats.v) *)
+Theorem C19_inputs_unpaired : inputs_unpaired = true.
+Proof. exact inputs_unpaired_true. Qed.
+Print Assumptions C19_inputs_unpaired.
+
 (* non-vacuity: a commit with two files (one ignored), two sessions of two tools listing one line
    twice, a human line, a binary file and an overridden line, through the whole of
    stats_for_commit_stats (numstat text included) *)
